@@ -5,9 +5,10 @@ package robust
 import (
 	"encoding/json"
 	"fmt"
+	"hash/fnv"
 	"net"
-	"runtime"
 	"os"
+	"runtime"
 	"strings"
 	"testing"
 
@@ -87,6 +88,7 @@ type podSpec struct {
 	UID        string
 	NilAnn     bool
 	NoResource bool
+	Twin       bool // the name shares a hashed-mutex slot with the deployment's lock key (see hashTwin)
 }
 
 // ---- generators ----
@@ -145,6 +147,38 @@ var argsSeeds = []string{
 	`{"request_ip_range":[[]]}`, `{"request_ip_range":[]}`, `{"common":{"ipinfos":[{"ip":null}]}}`, `{"common":{"ipinfos":[{}]}}`, `{"common":null}`,
 }
 
+// hashTwin returns a replica-set style pod name of deployment d0 in namespace ns0 whose pod lock key ("ns0_<name>") falls into the same
+// slot of a 500000-slot FNV-1a hashed key mutex as the lock key of its deployment / pool (one pod name in 500000 does): harmless as
+// long as pod locks and deployment locks live in tables of their own, a self-deadlock of Filter if they ever share one.
+var hashTwins = map[string]string{}
+
+func hashTwin(dpKey string) string {
+	if n, ok := hashTwins[dpKey]; ok {
+		return n
+	}
+	slot := func(s string) uint32 {
+		h := fnv.New32a()
+		h.Write([]byte(s))
+		return h.Sum32() % 500000
+	}
+	want := slot(dpKey)
+	const al = "bcdfghjklmnpqrstvwxz2456789"
+	buf := []byte("ns0_d0-5d4f8b7c9-aaaaa")
+	n := len(buf)
+	for i := 0; ; i++ {
+		v := i
+		for k := 1; k <= 5; k++ {
+			buf[n-k] = al[v%len(al)]
+			v /= len(al)
+		}
+		if slot(string(buf)) == want {
+			break
+		}
+	}
+	hashTwins[dpKey] = string(buf[len("ns0_"):])
+	return hashTwins[dpKey]
+}
+
 func genPodSpec(t *rapid.T) *podSpec {
 	p := &podSpec{Ns: rapid.SampledFrom([]string{"ns0", "", "kube-system", "a_b"}).Draw(t, "ns"),
 		Name:     rapid.SampledFrom([]string{"s0-0", "s0-1", "x", "x-", "-1", "a-b-c-999999999999999999999", "d0-5d4f8b7c9-abcde", "", "s0--2"}).Draw(t, "name"),
@@ -154,6 +188,16 @@ func genPodSpec(t *rapid.T) *podSpec {
 		NodeName: rapid.SampledFrom([]string{"", "n0", "n9"}).Draw(t, "node"),
 		UID:      rapid.SampledFrom([]string{"", "u1", "u2"}).Draw(t, "uid"),
 		NilAnn:   rapid.IntRange(0, 5).Draw(t, "nilAnn") == 0, NoResource: rapid.IntRange(0, 7).Draw(t, "noRes") == 0}
+	if rapid.IntRange(0, 9).Draw(t, "hashTwin") == 0 {
+		// a deployment pod whose name happens to share a lock-table slot with its deployment (or pool)
+		p.Ns, p.Pool, p.NilAnn = "ns0", rapid.SampledFrom([]string{"", "p0"}).Draw(t, "twinPool"), false
+		dpKey := "dp_ns0_d0_"
+		if p.Pool != "" {
+			dpKey = "pool__" + p.Pool + "_"
+		}
+		p.Name = hashTwin(dpKey)
+		p.Twin = true
+	}
 	p.Args = "<none>"
 	if rapid.IntRange(0, 3).Draw(t, "hasArgs") > 0 {
 		p.Args = genText(t, "args", argsSeeds)
@@ -162,6 +206,9 @@ func genPodSpec(t *rapid.T) *podSpec {
 	for i := 0; i < no; i++ {
 		p.Owners = append(p.Owners, [2]string{rapid.SampledFrom([]string{"StatefulSet", "ReplicaSet", "Deployment", "Foo", "NotScalable", "", "x_y"}).Draw(t, "kind"),
 			rapid.SampledFrom([]string{"s0", "d0-5d4f8b7c9", "norsdash", "", "-", "a-"}).Draw(t, "oname")})
+	}
+	if p.Twin {
+		p.Owners = [][2]string{{"ReplicaSet", "d0-5d4f8b7c9"}}
 	}
 	return p
 }
@@ -373,6 +420,9 @@ func checkPod(ps *podSpec, ops []string, r *vcore.Rec) *vcore.Failure {
 	if ps.Args != "<none>" && rangeTooLarge(ps.Args) {
 		r.Class("skipped_huge_range")
 		return nil
+	}
+	if ps.Twin {
+		r.Class("pod_name_shares_lock_slot_with_its_deployment")
 	}
 	x, f := baseWorld("")
 	if f != nil {
